@@ -43,6 +43,19 @@ def replay(rec, ctx):
         got = sorted((round(p.x, 12), round(p.y, 12)) for p in v.vertices)
         if got != sorted(verts):
             bad("vertices-differ", str(got))
+    # the caller fills one float64 scratch array per cell and re-uses it: a voxel keeps reporting the polygon it was built from
+    # (whether the constructor may reorder the caller's array in place is not something the statement settles)
+    import numpy as np
+    buf = np.array(verts, dtype=np.float64)
+    try:
+        v1 = AxisymmetricVoxel(buf)
+        buf[:] = np.array(verts, dtype=np.float64) * 0.5 + np.array([20.0, 3.0])        # the next cell: same shape, half the size, elsewhere
+        v2 = AxisymmetricVoxel(buf)          # noqa: F841  (the next cell, built from the same buffer)
+        c1 = v1.cross_section_centroid
+        if not (core.close(v1.cross_sectional_area, area, rtol=1e-12) and core.close(v1.volume, vol, rtol=1e-12) and core.close(c1.x, cr, rtol=1e-12, atol=1e-14)):
+            bad("voxel-follows-later-edits-of-the-callers-array", f"area {v1.cross_sectional_area!r} (was {area!r}), volume {v1.volume!r} (was {vol!r}) after the caller re-used its vertex array")
+    except Exception as ex:      # noqa: BLE001
+        bad(f"ndarray-vertices-raised-{type(ex).__name__}", repr(ex)[:200])
     return viol
 
 
